@@ -127,10 +127,16 @@ func (p *Processor) resolveLfsRecords(ctx context.Context, records []sink.Record
 		close(results)
 	}()
 
+	// A record whose blob cannot be resolved must not be skipped: the caller commits
+	// the segment's last offset, so the whole batch fails and is retried.
+	var resolveErr error
 	for res := range results {
 		if res.err != nil {
 			metrics.LfsResolutionErrorsTotal.WithLabelValues(topic, "resolve").Inc()
 			log.Printf("lfs resolve failed topic=%s offset=%d: %v", topic, res.record.Offset, res.err)
+			if resolveErr == nil {
+				resolveErr = res.err
+			}
 			continue
 		}
 		if res.keep {
@@ -140,6 +146,10 @@ func (p *Processor) resolveLfsRecords(ctx context.Context, records []sink.Record
 			metrics.LfsResolvedTotal.WithLabelValues(topic).Inc()
 			metrics.LfsResolvedBytesTotal.WithLabelValues(topic).Add(float64(res.resolvedBytes))
 		}
+	}
+
+	if resolveErr != nil {
+		return nil, resolveErr
 	}
 
 	filtered := make([]sink.Record, 0, len(records))
